@@ -4,6 +4,7 @@ package main
 
 import (
 	"fmt"
+	"go/constant"
 	"go/token"
 	"go/types"
 	"sort"
@@ -679,10 +680,87 @@ func domConds(in ssa.Instruction) []string {
 		for i, s := range d.Succs {
 			if len(s.Preds) == 1 && s.Dominates(b0) {
 				out = append(out, pathOf(iff.Cond)+"="+map[int]string{0: "T", 1: "F"}[i])
+				out = append(out, shortCircuitConds(iff.Cond, i == 0)...)
 			}
 		}
 	}
 	return out
+}
+
+// condSpellings: the fact "cond evaluated to truth" in every equivalent spelling of a comparison — as written, negated
+// operator with the opposite outcome, and both again with the operands mirrored — so that a rule's pattern matches
+// whichever way the source writes the test (`if err != nil { return }` and `if err == nil { ... }` state the same fact
+// about the code that follows). The spelling as written comes first.
+func condSpellings(cond ssa.Value, truth bool) []string {
+	tf := func(b bool) string {
+		if b {
+			return "T"
+		}
+		return "F"
+	}
+	out := []string{pathOf(cond) + "=" + tf(truth)}
+	if u, ok := cond.(*ssa.UnOp); ok && u.Op == token.NOT {
+		out = append(out, condSpellings(u.X, !truth)...)
+		return out
+	}
+	bo, ok := cond.(*ssa.BinOp)
+	if !ok {
+		return out
+	}
+	neg := map[token.Token]token.Token{token.EQL: token.NEQ, token.NEQ: token.EQL, token.LSS: token.GEQ, token.GEQ: token.LSS, token.GTR: token.LEQ, token.LEQ: token.GTR}
+	mir := map[token.Token]token.Token{token.EQL: token.EQL, token.NEQ: token.NEQ, token.LSS: token.GTR, token.GTR: token.LSS, token.LEQ: token.GEQ, token.GEQ: token.LEQ}
+	if _, cmp := neg[bo.Op]; !cmp {
+		return out
+	}
+	l, r := pathOf(bo.X), pathOf(bo.Y)
+	sp := func(a string, op token.Token, b string, t bool) string {
+		return "(" + a + " " + op.String() + " " + b + ")=" + tf(t)
+	}
+	for _, s := range []string{sp(l, neg[bo.Op], r, !truth), sp(r, mir[bo.Op], l, truth), sp(r, neg[mir[bo.Op]], l, !truth)} {
+		dup := false
+		for _, o := range out {
+			if o == s {
+				dup = true
+			}
+		}
+		if !dup {
+			out = append(out, s)
+		}
+	}
+	return out
+}
+
+// shortCircuitConds: a condition that is the value of `a && b` (a phi of the constant false and b) being true means b was
+// evaluated and true, under the conditions of its edge (a among them); dually for `a || b` being false. An if statement
+// lowers && to branches, a switch case or an assignment lowers it to such a phi: both must read the same.
+func shortCircuitConds(cond ssa.Value, truth bool) []string {
+	phi, ok := cond.(*ssa.Phi)
+	if !ok {
+		return nil
+	}
+	k := -1
+	for i, e := range phi.Edges {
+		if c, ok := e.(*ssa.Const); ok && c.Value != nil && c.Value.Kind() == constant.Bool {
+			if constant.BoolVal(c.Value) == truth {
+				return nil // a constant edge with the observed outcome: nothing known about the others
+			}
+			continue
+		}
+		if k >= 0 {
+			return nil
+		}
+		k = i
+	}
+	if k < 0 || k >= len(phi.Block().Preds) {
+		return nil
+	}
+	tf := "F"
+	if truth {
+		tf = "T"
+	}
+	out := []string{pathOf(phi.Edges[k]) + "=" + tf}
+	out = append(out, shortCircuitConds(phi.Edges[k], truth)...)
+	return append(out, edgeConds(phi.Block().Preds[k], phi.Block())...)
 }
 
 // edgeConds lists the branch conditions known to hold when control flows along pred -> succ: those dominating pred
@@ -694,8 +772,10 @@ func edgeConds(pred, succ *ssa.BasicBlock) []string {
 		if iff, ok := pred.Instrs[len(pred.Instrs)-1].(*ssa.If); ok && len(pred.Succs) == 2 && pred.Succs[0] != pred.Succs[1] {
 			if pred.Succs[0] == succ {
 				out = append(out, pathOf(iff.Cond)+"=T")
+				out = append(out, shortCircuitConds(iff.Cond, true)...)
 			} else if pred.Succs[1] == succ {
 				out = append(out, pathOf(iff.Cond)+"=F")
+				out = append(out, shortCircuitConds(iff.Cond, false)...)
 			}
 		}
 	}
@@ -744,7 +824,104 @@ func hasCond(conds []string, pattern string) bool {
 			return true
 		}
 	}
+	// the same facts in their equivalent spellings (negated operator with the opposite outcome, mirrored operands, a
+	// leading `!`): `if err != nil { return }` and `if err == nil {…}` state the same about the code that follows
+	for _, c := range conds {
+		for _, s := range factSpellings(c) {
+			if r.MatchString(s) {
+				return true
+			}
+		}
+	}
 	return false
+}
+
+// factMatches: the pattern matches the fact in one of its spellings.
+func factMatches(fact, pattern string) bool {
+	r := re(pattern)
+	if r.MatchString(fact) {
+		return true
+	}
+	for _, s := range factSpellings(fact) {
+		if r.MatchString(s) {
+			return true
+		}
+	}
+	return false
+}
+
+// factIs: the fact is want, in any of its spellings.
+func factIs(fact, want string) bool {
+	if fact == want {
+		return true
+	}
+	for _, s := range factSpellings(fact) {
+		if s == want {
+			return true
+		}
+	}
+	return false
+}
+
+// onlyConds: every fact matches the pattern in one of its spellings.
+func onlyConds(conds []string, pattern string) bool {
+	r := re(pattern)
+	for _, c := range conds {
+		ok := r.MatchString(c)
+		for _, s := range factSpellings(c) {
+			ok = ok || r.MatchString(s)
+		}
+		if !ok {
+			return false
+		}
+	}
+	return true
+}
+
+// factSpellings parses a fact "(L op R)=T" / "!X=F" and returns its other spellings.
+func factSpellings(fact string) []string {
+	if len(fact) < 3 || fact[len(fact)-2] != '=' {
+		return nil
+	}
+	body, tv := fact[:len(fact)-2], fact[len(fact)-1]
+	other := map[byte]string{'T': "F", 'F': "T"}[tv]
+	if other == "" {
+		return nil
+	}
+	if strings.HasPrefix(body, "!") {
+		return append([]string{body[1:] + "=" + other}, factSpellings(body[1:]+"="+other)...)
+	}
+	if !strings.HasPrefix(body, "(") || !strings.HasSuffix(body, ")") {
+		return nil
+	}
+	inner := body[1 : len(body)-1]
+	depth := 0
+	neg := map[string]string{"==": "!=", "!=": "==", "<": ">=", ">=": "<", ">": "<=", "<=": ">"}
+	mir := map[string]string{"==": "==", "!=": "!=", "<": ">", ">": "<", "<=": ">=", ">=": "<="}
+	for i := 0; i < len(inner); i++ {
+		switch inner[i] {
+		case '(', '[', '{':
+			depth++
+		case ')', ']', '}':
+			depth--
+		case ' ':
+			if depth != 0 {
+				continue
+			}
+			for _, op := range []string{"==", "!=", "<=", ">=", "<", ">"} {
+				if strings.HasPrefix(inner[i+1:], op+" ") {
+					l, r := inner[:i], inner[i+len(op)+2:]
+					same := string(tv)
+					return []string{
+						"(" + l + " " + neg[op] + " " + r + ")=" + other,
+						"(" + r + " " + mir[op] + " " + l + ")=" + same,
+						"(" + r + " " + neg[mir[op]] + " " + l + ")=" + other,
+					}
+				}
+			}
+		}
+	}
+	return nil
 }
 
 // caseLadder follows a switch lowered to a chain of `tag < K` tests: it returns the thresholds in order and the
